@@ -65,6 +65,10 @@ def gen_cases(rng, tier, count=None):
                 if rng.random() < 0.5:
                     c["queries"] = list(range(min(T, 400)))
                 c["tolerate_query_errors"] = True
+            if C.family(c["algo"]) in ("POO", "GPO") and rng.random() < 0.5:
+                # the wrappers' recommendation after every round (a leader cached at the wrong moment is stale for one
+                # between-round instant only)
+                c["queries"] = list(range(T))
             if C.family(c["algo"]) == "GPO":
                 H = C.gpo_N_H(c["n"], c["params"]["rhomax"])[1]
                 c["queries"] = [q for q in c["queries"] if q >= H + 1]
